@@ -1,0 +1,19 @@
+// +build verif
+
+// Contracts for the rtv verifier (/verif). Comment-only; compiled only with -tags verif.
+
+package reftable
+
+//@ func getVarInt
+//@   results val, n
+//@   props C18
+//@   nopanic
+//@   ensures n == -1 || (1 <= n && n <= len(buf))
+//@   loop 1 invariant 0 <= ptr && ptr < len(buf)
+//@   loop 1 decreases len(buf) - ptr
+
+//@ func putVarInt
+//@   props C01
+//@   nopanic
+//@   ensures ok ==> 1 <= n && n <= 10 && n <= len(buf)
+//@   loop 1 invariant 0 <= i && i <= 8
